@@ -28,7 +28,9 @@ func VerifC08_AnnounceBursts() {
 	var reported []rep
 	inner := v.s.generalBlockHook
 	v.s.generalBlockHook = func(p peer.ID, c cid.Cid, a SegmentSyncActions) {
+		unlock := ghostLock()
 		reported = append(reported, rep{p, c})
+		unlock()
 		inner(p, c, a)
 	}
 	evch, _ := v.s.OnSyncFinished() // a listener registered before any announcement
@@ -85,13 +87,17 @@ func VerifC08_ExplicitDuringAnnounced() {
 	var general, scoped []cid.Cid
 	inner := v.s.generalBlockHook
 	v.s.generalBlockHook = func(p peer.ID, c cid.Cid, a SegmentSyncActions) {
+		unlock := ghostLock()
 		general = append(general, c)
+		unlock()
 		inner(p, c, a)
 	}
 	evch, _ := v.s.OnSyncFinished()
 	verif_Assume(v.s.Announce(context.Background(), chain[0], v.peer) == nil)
 	got, err := v.s.SyncAdChain(context.Background(), v.peer, ScopedBlockHook(func(p peer.ID, c cid.Cid, a SegmentSyncActions) {
+		unlock := ghostLock()
 		scoped = append(scoped, c)
+		unlock()
 		inner(p, c, a)
 	}))
 	verif_Assert(err == nil && got == chain[0], "the explicit sync succeeds")
